@@ -748,33 +748,27 @@ Qed.
 
 End Instances.
 
-(* ====================== taiko: the known classes are genuinely violated ============== *)
+(* ====================== taiko ========================================================== *)
 (* skill state = list of processed difficulty-object indices *)
 Definition taiko_run (flags : list bool) (ops : list gop) :=
   run_gops (taiko_next (list Z) trace_process flags) (taiko_nth (list Z) trace_process flags)
            (taiko_len (list Z) flags) (fun c => c) ops (taiko_new (list Z) []).
 Definition taiko_spec (flags : list bool) (ops : list gop) :=
-  spec_gops (oneshots (fun i => fst (taiko_oneshot (list Z) trace_process [] flags i))
-                      (taiko_total_hits flags)) ops.
+  spec_gops (oneshots (taiko_oneshot (list Z) trace_process [] flags) (taiko_total_hits flags)) ops.
 
-(* first object is not a hit: values are shifted and `len` underflows *)
-Lemma taiko_first_not_hit_refuted :
-  exists flags ops, taiko_run flags ops <> taiko_spec flags ops.
-Proof.
-  exists [false; true; true; true], [GLenOp; GNext; GNext; GNext; GNext; GLenOp].
-  vm_compute. congruence.
-Qed.
-
-(* fewer than three objects: no value is produced *)
-Lemma taiko_short_map_refuted :
-  exists flags ops, (length flags < 3)%nat /\ taiko_run flags ops <> taiko_spec flags ops.
-Proof. exists [true; true], [GLenOp; GNext]. split; [cbn; lia|]. vm_compute. congruence. Qed.
-
-(* trailing non-hit objects: the final gradual value misses the objects after the last
-   hit that the unlimited one-shot calculation processes *)
+(* trailing non-hit objects: the final gradual value (= one-shot with all hits passed) misses the
+   objects after the last hit that the unlimited one-shot calculation processes — finding F6c *)
 Lemma taiko_trailing_refuted :
   exists flags,
     let full := taiko_oneshot (list Z) trace_process [] flags USIZE_MAX in
     let last_v := taiko_oneshot (list Z) trace_process [] flags (taiko_total_hits flags) in
     snd full <> snd last_v.
 Proof. exists [true; true; true; false]. vm_compute. congruence. Qed.
+
+(* the maps of the former findings F6a / F6b now behave like the reference iterator *)
+Example taiko_first_not_hit_ok :
+  taiko_run [false; true; true; true] [GLenOp; GNext; GNext; GNext; GNext; GLenOp]
+  = taiko_spec [false; true; true; true] [GLenOp; GNext; GNext; GNext; GNext; GLenOp].
+Proof. vm_compute. reflexivity. Qed.
+Example taiko_short_map_ok : taiko_run [true; true] [GLenOp; GNext; GNth 5] = taiko_spec [true; true] [GLenOp; GNext; GNth 5].
+Proof. vm_compute. reflexivity. Qed.
